@@ -7,11 +7,28 @@
 // Every message lives in an exact-size heap block; every (nested) bundle is built into a heap
 // block of exactly <cap> bytes pre-filled with 0xAA and handed on as that whole block, so ASan
 // sees any store behind `len` and any read behind the allocation.
+//
+// Arena mode (ops `Cr`, `Ar`): malloc never hands out the same address twice while ASan's
+// quarantine is filling, so code that remembers something about an element *by its address*
+// would never be caught with heap blocks.  In arena mode every block is carved out of one big
+// region (bump allocation from the same base on every op, everything around the blocks
+// poisoned, so the exact-size property is kept: ASan reports `use-after-poison`), and before
+// the real composition a DECOY composition is run on the same layout: every block of the tree
+// sits at the same address but holds something else (messages: the 8-byte message "/" ",";
+// nested bundles: an empty bundle), and rtosc_bundle is called on all of them.
 #pragma once
 #include "common.h"
 #include <rtosc/rtosc.h>
 #include <memory>
 #include <sys/time.h>
+#if defined(__SANITIZE_ADDRESS__)
+#include <sanitizer/asan_interface.h>
+#define VB_POISON(p, n) __asan_poison_memory_region((p), (n))
+#define VB_UNPOISON(p, n) __asan_unpoison_memory_region((p), (n))
+#else
+#define VB_POISON(p, n) ((void)0)
+#define VB_UNPOISON(p, n) ((void)0)
+#endif
 
 namespace vb {
 using namespace vh;
@@ -23,16 +40,41 @@ inline void arm_watchdog() {
     setitimer(ITIMER_PROF, &t, NULL);
 }
 
-// heap block of exactly n bytes (n == 0: a pointer with no accessible byte behind it)
+// the arena: blocks start 8-aligned (ASan's granule), 32 poisoned bytes between two blocks
+struct Arena {
+    unsigned char *base;
+    size_t size, used;
+    bool on;
+    Arena() : base(NULL), size(0), used(0), on(false) {}
+    void reset() {
+        if (!base) { size = (size_t)16 << 20; base = (unsigned char *)malloc(size); used = size; }
+        VB_POISON(base, used);
+        used = 0;
+    }
+    unsigned char *take(size_t n) {
+        uintptr_t a = ((uintptr_t)base + used + 32 + 7) & ~(uintptr_t)7;
+        size_t start = (size_t)(a - (uintptr_t)base);
+        if (start + n + 64 > size) return NULL;           // does not fit: the caller uses the heap
+        used = start + n + 32;
+        VB_UNPOISON(base + start, n);
+        return base + start;
+    }
+};
+inline Arena &arena() { static Arena a; return a; }
+
+// block of exactly n bytes (n == 0: a pointer with no accessible byte behind it), from the heap
+// or, in arena mode, from the arena
 struct Block {
     unsigned char *base, *p;
     size_t n;
     Block(size_t n_, unsigned char fill) : n(n_) {
+        base = NULL;
+        if (arena().on && (p = arena().take(n))) { if (n) memset(p, fill, n); return; }
         if (n) { base = (unsigned char *)malloc(n); p = base; memset(p, fill, n); }
         else { base = (unsigned char *)malloc(8); p = base + 8; }
     }
     explicit Block(const bytes &b) : Block(b.size(), 0) { if (n) memcpy(p, b.data(), n); }
-    ~Block() { free(base); }
+    ~Block() { if (base) free(base); }
     char *c() { return (char *)p; }
     Block(const Block &) = delete;
     Block &operator=(const Block &) = delete;
@@ -61,15 +103,24 @@ inline bool parse_node(const std::vector<std::string> &w, size_t &i, Node &n, in
     for (int k = 0; k < 8; ++k) n.tt = (n.tt << 8) | tb[k];
     long cnt = atol(t.substr(c1 + 1, c2 - c1 - 1).c_str());
     n.cap = (size_t)atoll(t.substr(c2 + 1).c_str());
-    if (cnt < 0 || cnt > 8) return false;
+    if (cnt < 0 || cnt > 40) return false;
     n.kids.resize((size_t)cnt);
     for (long k = 0; k < cnt; ++k)
         if (!parse_node(w, i, n.kids[(size_t)k], depth + 1)) return false;
     return true;
 }
 
-// rtosc_bundle is variadic: one literal call site per element count
+// rtosc_bundle is variadic: one literal call site per element count up to 8; 9..40 elements go
+// through one call site that passes 40 pointers (the unused ones NULL; rtosc_bundle fetches `elms`)
 inline size_t call_bundle(char *b, size_t len, uint64_t tt, const std::vector<const char *> &e) {
+    if (e.size() > 8 && e.size() <= 40) {
+        const char *p[40];
+        for (size_t i = 0; i < 40; ++i) p[i] = i < e.size() ? e[i] : NULL;
+        return rtosc_bundle(b, len, tt, (int)e.size(), p[0], p[1], p[2], p[3], p[4], p[5], p[6], p[7], p[8], p[9],
+                            p[10], p[11], p[12], p[13], p[14], p[15], p[16], p[17], p[18], p[19], p[20], p[21], p[22],
+                            p[23], p[24], p[25], p[26], p[27], p[28], p[29], p[30], p[31], p[32], p[33], p[34], p[35],
+                            p[36], p[37], p[38], p[39]);
+    }
     switch (e.size()) {
     case 0: return rtosc_bundle(b, len, tt, 0);
     case 1: return rtosc_bundle(b, len, tt, 1, e[0]);
@@ -110,6 +161,55 @@ inline std::unique_ptr<Block> build(const Node &n, size_t *ret) {
     std::unique_ptr<Block> dst(new Block(n.cap, 0xAA));
     *ret = call_bundle(dst->c(), n.cap, n.tt, k.ptrs);
     return dst;
+}
+
+// ---- arena mode: the decoy composition -------------------------------------------------------
+// every block of the tree, allocated in the order `build` allocates them, with decoy contents;
+// `calls` = the element pointers of every bundle node, in the order `build` calls rtosc_bundle
+struct Decoy {
+    std::vector<std::unique_ptr<Block>> blocks;
+    std::vector<std::vector<const char *>> calls;
+    bool ok = true;
+};
+
+inline const char *decoy_layout(const Node &n, Decoy &d, bool top) {
+    static const unsigned char msg8[8] = {'/', 0, 0, 0, ',', 0, 0, 0};
+    static const unsigned char bun16[16] = {'#', 'b', 'u', 'n', 'd', 'l', 'e', 0, 0, 0, 0, 0, 0, 0, 0, 7};
+    if (!n.is_bundle) {
+        if (n.msg.size() < 8) d.ok = false;
+        d.blocks.emplace_back(new Block(n.msg.size(), 0));
+        if (n.msg.size() >= 8) memcpy(d.blocks.back()->p, msg8, 8);
+        return d.blocks.back()->c();
+    }
+    std::vector<const char *> ptrs;
+    for (const Node &c : n.kids) ptrs.push_back(decoy_layout(c, d, false));
+    d.calls.push_back(ptrs);
+    if (!top && n.cap < 20) d.ok = false;
+    d.blocks.emplace_back(new Block(n.cap, 0));
+    if (n.cap >= 16) memcpy(d.blocks.back()->p, bun16, 16);
+    return d.blocks.back()->c();
+}
+
+// to be called with the arena switched on and freshly reset; resets it again afterwards
+inline void run_decoy(const Node &root) {
+    {
+        Decoy d;
+        decoy_layout(root, d, true);
+        if (d.ok) {
+            arena().on = false;                            // the scratch destination is a heap block
+            size_t need = 64;
+            for (auto &b : d.blocks) need += b->n + 8;
+            Block scratch(need, 0xAA);
+            arena().on = true;
+            for (size_t i = 0; i < d.calls.size(); ++i)
+                call_bundle(scratch.c(), need, 0x5a5a5a5a5a5a5a5aULL, d.calls[i]);
+            for (size_t i = d.calls.size(); i-- > 0;) {
+                std::vector<const char *> r(d.calls[i].rbegin(), d.calls[i].rend());
+                call_bundle(scratch.c(), need, 0xa5a5a5a5a5a5a5a5ULL, r);
+            }
+        }
+    }
+    arena().reset();
 }
 
 // whole block as hex; an all-zero block of n > 0 bytes is written z<n>
